@@ -174,6 +174,10 @@ def gen_coll_case(rng):
             ops.append(["concat", rng.choice(colls), rng.choice(colls), rng.choice(colls + ["C"])])
             if "C" not in colls:
                 colls.append("C")
+    if rng.random() < 0.4:
+        # cache filled, then only the sort key changes, then read again (no add/remove in between)
+        c = rng.choice(colls)
+        ops += [["iter", c], ["sortkey", c, rng.choice(KEYS), rng.choice(["0", "1"])], rng.choice([["iter", c], ["geti", c, "0"], ["index", c, "1"]]), ["iter", c]]
     ops.append(["keys", "A"]); ops.append(["iter", "A"]); ops.append(["len", "A"])
     ops.append(["keys", "B"]); ops.append(["iter", "B"])
     return {"kind": "coll", "objs": objs, "ops": ops}
